@@ -149,6 +149,16 @@ func nearFamily(base string, peerKind bool) []variant {
 	}
 	add("plus-x", base+"x")
 	add("twice", base+base)
+	// hierarchy: a value that is the other's prefix up to and including a
+	// separator ("/foo/" vs "/foo/echo"), in both issue orders
+	if i := strings.LastIndexAny(base, "/|.:-_"); i >= 0 && i+1 < len(base) {
+		add("parent-with-separator", base[:i+1])
+	}
+	if i := strings.IndexAny(base, "/|.:-_"); i >= 0 && i+1 < len(base) {
+		add("first-segment-with-separator", base[:i+1])
+	}
+	add("child-after-slash", base+"/x")
+	add("child-after-dot", base+".x")
 	return out
 }
 
